@@ -1,5 +1,45 @@
-use serde_json::Value;
+use serde_json::{json, Value};
+use text_utils::dictionary::{Dictionary, DictionaryDistanceMeasure};
 
-pub fn dispatch(op: &str, _req: &Value) -> Result<Value, String> {
-    Err(format!("unknown op {op}"))
+pub fn dispatch(op: &str, req: &Value) -> Result<Value, String> {
+    match op {
+        "dictionary" => {
+            let dir = std::path::PathBuf::from(std::env::var("VERIF_SCRATCH").unwrap_or("/var/tmp/verif-scratch".to_string()))
+                .join(format!("dict-{}", std::process::id()));
+            std::fs::create_dir_all(&dir).map_err(|e| e.to_string())?;
+            let mut paths = vec![];
+            for (i, f) in req["files"].as_array().ok_or("files")?.iter().enumerate() {
+                let p = dir.join(format!("f{i}.txt"));
+                let mut content = String::new();
+                for l in f.as_array().unwrap() {
+                    content.push_str(l.as_str().unwrap());
+                    content.push('\n');
+                }
+                std::fs::write(&p, content).map_err(|e| e.to_string())?;
+                paths.push(p);
+            }
+            let ms = req["max_size"].as_u64().map(|x| x as usize);
+            let mq = req["max_seq"].as_u64().map(|x| x as usize);
+            let res = std::panic::catch_unwind(std::panic::AssertUnwindSafe(|| {
+                Dictionary::create(&paths, ms, mq, req["threads"].as_u64().unwrap_or(0) as u8, req["chars"].as_bool().unwrap_or(false),
+                    req["grams"].as_u64().unwrap_or(1) as u8, false)
+            }));
+            let d = match res {
+                Ok(Ok(d)) => d,
+                Ok(Err(e)) => { let _ = std::fs::remove_dir_all(&dir); return Err(e.to_string()); }
+                Err(p) => { let _ = std::fs::remove_dir_all(&dir); std::panic::resume_unwind(p); }
+            };
+            let mut items: Vec<(String, usize)> = d.items().map(|(k, v)| (k.clone(), *v)).collect();
+            items.sort();
+            let out = dir.join("dict.txt");
+            d.save(&out).map_err(|e| e.to_string())?;
+            let d2 = Dictionary::load(&out).map_err(|e| e.to_string())?;
+            let mut items2: Vec<(String, usize)> = d2.items().map(|(k, v)| (k.clone(), *v)).collect();
+            items2.sort();
+            let closest = req["query"].as_str().and_then(|q| d.get_closest(q, DictionaryDistanceMeasure::EditDistance)).map(|(t, f, _)| json!([t, f]));
+            let _ = std::fs::remove_dir_all(&dir);
+            Ok(json!({"items": items, "freq_sum": d.freq_sum, "roundtrip": items == items2 && d.freq_sum == d2.freq_sum, "closest": closest}))
+        }
+        _ => crate::ops15::dispatch(op, req),
+    }
 }
